@@ -26,12 +26,12 @@ theorem reach_pickD (cfg : Cfg) (cs : List Nat) : ∀ s, Reach cfg s → Reach c
     · exact h
 
 /-- two members, the first answers "sat", the second answers unknown; `exit_on_exception` off -/
-def cfgTU : Cfg := { n := 2, eoe := false, beh := fun _ i => if i = 0 then .answer true else .raise .unknown, os := ⟨true⟩ }
+def cfgTU : Cfg := { n := 2, eoe := false, beh := fun _ i => if i = 0 then .answer true else .raise .unknown, os := { killAtomic := true } }
 /-- two members that both fail -/
 def cfgRU (eoe : Bool) : Cfg :=
-  { n := 2, eoe := eoe, beh := fun _ i => if i = 0 then .raise .solverError else .raise .unknown, os := ⟨true⟩ }
+  { n := 2, eoe := eoe, beh := fun _ i => if i = 0 then .raise .solverError else .raise .unknown, os := { killAtomic := true } }
 /-- two members that both answer "sat"; `atomic` = assumption A1 -/
-def cfgTT (atomic : Bool) : Cfg := { n := 2, eoe := false, beh := fun _ _ => .answer true, os := ⟨atomic⟩ }
+def cfgTT (atomic : Bool) : Cfg := { n := 2, eoe := false, beh := fun _ _ => .answer true, os := { killAtomic := atomic } }
 
 theorem reach_fresh_init (cfg : Cfg) : Reach cfg (fresh cfg init) :=
   Reach.step init _ Reach.init (Step.user init _ (UStep.solveStart init rfl))
@@ -52,6 +52,10 @@ def ttServed : State := pickD (cfgTT true) (askState (ttReturned true) true 0 0)
 /-- without A1: the terminated member 1 swallows the query; nobody will ever answer -/
 def ttStuck : State := pickD (cfgTT false) (askState (ttReturned false) true 0 0) [1]
 
+/-- both members answer "sat" and the winner may die afterwards (fault `serveCrash`) -/
+def cfgTTc : Cfg := { n := 2, eoe := false, beh := fun _ _ => .answer true, os := { killAtomic := true, serveCrash := true } }
+def ttcReturned : State := pickD cfgTTc (fresh cfgTTc init) [0, 0, 2, 2, 0, 0, 0, 0]
+
 theorem reach_ttReturned (atomic : Bool) : Reach (cfgTT atomic) (ttReturned atomic) :=
   reach_pickD _ _ _ (reach_fresh_init _)
 
@@ -60,5 +64,11 @@ theorem reach_ttServed : Reach (cfgTT true) ttServed :=
 
 theorem reach_ttStuck : Reach (cfgTT false) ttStuck :=
   reach_pickD _ _ _ (reach_ask _ _ (reach_ttReturned false) true 0 0 (by decide))
+
+/-- the winner dies while the parent waits for its reply; the parent's `recv` ends with EOF -/
+def ttcEOF : State := pickD cfgTTc (askState ttcReturned true 0 0) [1, 0]
+
+theorem reach_ttcEOF : Reach cfgTTc ttcEOF :=
+  reach_pickD _ _ _ (reach_ask _ _ (reach_pickD _ _ _ (reach_fresh_init _)) true 0 0 (by decide))
 
 end PySMT.Portfolio
